@@ -36,30 +36,29 @@ def parseEntry (s : String) : Option (Path × Node) :=
   | [p, v] => if v.startsWith "f" then (v.drop 1).toString.toNat?.map fun c => (parsePath p, .file c) else none
   | _ => none
 
-def fuelFor (t : Tree) : Nat := 4 * t.length + 16
-
-/-- a path argument that goes THROUGH a regular file is a kind conflict (a file where a directory is needed) -/
-def throughFile (t : Tree) (p : Path) : Bool := (prefixes p).dropLast.any (isFile t)
+def parseOp (op : List String) : Option Op :=
+  match op with
+  | ["mkdir", p] => some (.mkdir (parsePath p))
+  | ["touch", p] => some (.touch (parsePath p))
+  | ["write", p, n] => n.toNat?.map fun c => .write (parsePath p) c
+  | ["read", p] => some (.read (parsePath p))
+  | ["exists", p] => some (.exists_ (parsePath p))
+  | ["isfile", p] => some (.isfile (parsePath p))
+  | ["isdir", p] => some (.isdir (parsePath p))
+  | ["isempty", p] => some (.isempty (parsePath p))
+  | ["ls", p] => some (.ls (parsePath p))
+  | ["lsr", p] => some (.lsr (parsePath p))
+  | ["rm", p] => some (.rm (parsePath p))
+  | ["clean", p] => some (.clean (parsePath p))
+  | ["cp", s, d] => some (.cp (parsePath s) (parsePath d) (d.endsWith "/"))
+  | ["mv", s, d] => some (.mv (parsePath s) (parsePath d))
+  | ["size", p] => some (.size (parsePath p))
+  | _ => none
 
 def runOp (t : Tree) (op : List String) : Option (Res × Tree) :=
-  if (op.drop 1).any (fun a => a.toNat?.isNone && throughFile t (parsePath a)) then some (.err .conflict, t) else
-  match op with
-  | ["mkdir", p] => some (mkdirAll t (parsePath p))
-  | ["touch", p] => some (touch t (parsePath p))
-  | ["write", p, n] => n.toNat?.map fun c => writeFile t (parsePath p) c
-  | ["read", p] => some (readFile t (parsePath p), t)
-  | ["exists", p] => some (.bool (exists_ t (parsePath p)), t)
-  | ["isfile", p] => some (.bool (isFile t (parsePath p)), t)
-  | ["isdir", p] => some (if exists_ t (parsePath p) then .bool (isDir t (parsePath p)) else .err .notFound, t)
-  | ["isempty", p] => some (isEmpty t (parsePath p), t)
-  | ["ls", p] => some (ls t (parsePath p), t)
-  | ["lsr", p] => some (lsRecursive t (parsePath p), t)
-  | ["rm", p] => some (rm t (parsePath p))
-  | ["clean", p] => some (cleanDir t (parsePath p))
-  | ["cp", s, d] => copy (fuelFor t) t (parsePath s) (parsePath d) (d.endsWith "/")
-  | ["mv", s, d] => move (fuelFor t) t (parsePath s) (parsePath d)
-  | ["size", p] => some (fileSize t id (parsePath p), t)
-  | _ => some (.err .other, t)
+  match parseOp op with
+  | some o => step t o
+  | none => some (.err .other, t)
 
 def handle (toks : List String) : String :=
   let (entries, rest) := toks.span (· ≠ "--")
